@@ -106,7 +106,12 @@ function revive(t) {
     case "s": return t.v;
     case "big": return BigInt(t.v);
     case "date": return t.v == null ? new Date(NaN) : new Date(t.v);
-    case "arr": return t.v.map(revive);
+    case "arr": {
+      // {t:"hole"} is an empty slot of a sparse array
+      const a = new Array(t.v.length);
+      t.v.forEach((x, i) => { if (x.t !== "hole") a[i] = revive(x); });
+      return a;
+    }
     case "obj": {
       let o;
       if (t.proto === "null") o = Object.create(null);
@@ -151,7 +156,7 @@ function encode(v, seen = new Set(), depth = 0) {
   seen.add(v);
   try {
     if (v instanceof Date) return { t: "date", v: Number.isNaN(v.getTime()) ? null : v.getTime() };
-    if (Array.isArray(v)) return { t: "arr", v: v.map((x) => encode(x, seen, depth + 1)) };
+    if (Array.isArray(v)) return { t: "arr", v: Array.from(v, (x, i) => (i in v ? encode(x, seen, depth + 1) : { t: "hole" })) };
     if (v instanceof Map) return { t: "map", v: [...v].map(([k, x]) => [encode(k, seen, depth + 1), encode(x, seen, depth + 1)]) };
     if (v instanceof Set) return { t: "set", v: [...v].map((x) => encode(x, seen, depth + 1)) };
     if (ArrayBuffer.isView(v)) return { t: "ta", k: v.constructor.name, v: [...v].map((x) => (typeof x === "bigint" ? x.toString() : x)) };
